@@ -88,6 +88,14 @@ def check_instance(x, rebuild, selector: int, label: str) -> list[tuple[str, str
         out.append(("class-not-frozen-eq", f"{name}: __dataclass_params__ = {params!r}"))
     if "__slots__" not in vars(cls):
         out.append(("class-without-slots", f"{name}"))
+    for f in fields:
+        if not f.compare or f.hash not in (None, True):
+            out.append(("field-excluded-from-eq-or-hash", f"{name}.{f.name}: compare={f.compare} hash={f.hash}"))
+    for special in ("__eq__", "__hash__"):
+        fn = vars(cls).get(special)
+        if fn is not None and getattr(fn, "__qualname__", "").split(".")[0] != "__create_fn__" and "dataclasses" not in getattr(getattr(fn, "__code__", None), "co_filename", "<string>") \
+                and getattr(getattr(fn, "__code__", None), "co_filename", "<string>") != "<string>":
+            out.append((f"hand-written-{special}", f"{name} defines its own {special}"))
     if hasattr(x, "__dict__"):
         out.append(("instance-has-dict", f"{name} ({label})"))
     # --- attribute assignment / deletion
@@ -210,7 +218,7 @@ SPEC = TreeSpec(
         "setattr/delattr on every field and on a fresh name raise; no __dict__; frozen+eq dataclass with __slots__; every "
         "reachable value is int/str/bytes/bool/float/None/UUID/datetime/timedelta/enum/tuple/frozen entity (arrays from the "
         "decoder are tuples); an independently rebuilt instance is == and hashes equal; an instance with one field changed "
-        "is !=; copy.copy, deepcopy, dataclasses.replace(x), replace(x, f=v) and pickle protocols 2-5 give equal new "
+        "is != (on a fully populated instance of EVERY class each field is perturbed in turn, and no field may be declared with compare=False/hash=False); copy.copy, deepcopy, dataclasses.replace(x), replace(x, f=v) and pickle protocols 2-5 give equal new "
         "instances (replace with a change differs in exactly that field) and leave repr/pickle of the original unchanged. "
         "Non-trivial = instance with >=1 nested entity or non-default tagged field; distinct by hash of (class, tree)."
     ),
@@ -260,6 +268,50 @@ def _records_report(ctx: Ctx) -> Report:
     return rep
 
 
+def rich_tree(cd):
+    """Deterministic instance with every field populated: one-item arrays, non-null nullables, tags present."""
+    from ..refcodec import Present
+
+    tree = {}
+    for f in cd.fields:
+        if f.kind == "struct":
+            item = rich_tree(f.struct)
+        elif f.kind == "float64":
+            item = bytes.fromhex("3ff8000000000000")
+        elif f.kind == "uuid":
+            item = bytes(range(16))
+        elif f.kind in ("string", "bytes", "records"):
+            item = b"v"
+        elif f.kind == "bool":
+            item = 1
+        elif f.kind == "error_code":
+            item = 3
+        else:
+            item = 5
+        v = [item] if f.array else item
+        tree[f.name] = Present(v) if f.tag is not None else v
+    return tree
+
+
+def every_field_matters(cd, x) -> list:
+    out = []
+    for f in dataclasses.fields(x):
+        p = perturb(getattr(x, f.name))
+        if p is _NO:
+            out.append(("harness:unperturbable", f"{cd.path}.{f.name}: {getattr(x, f.name)!r}"))
+            continue
+        z = dataclasses.replace(x, **{f.name: p})
+        if z == x or not (z != x):
+            out.append(("differing-field-ignored-by-eq", f"{cd.path}: instances differing only in {f.name} compare equal"))
+        else:
+            try:
+                if hash(z) == hash(x):
+                    note("hash_collisions_on_single_field_change")
+            except TypeError:
+                pass
+    return out
+
+
 def _all_classes_chunk(paths):
     from .. import describe as D
     from ..refcodec import zero_tree
@@ -271,6 +323,9 @@ def _all_classes_chunk(paths):
         for absent in (True, False):
             tree = zero_tree(cd, absent_tags=absent)
             fails += check(cd, tree, 0)
+        rt = rich_tree(cd)
+        fails += check(cd, rt, 1)
+        fails += [f for f in every_field_matters(cd, to_entity(cd, rt)) if not f[0].startswith("harness:")]
         out.append((p, fails))
     return out
 
@@ -284,7 +339,7 @@ def _all_classes_report(ctx: Ctx) -> Report:
     paths = [f"{c.__module__}:{c.__qualname__}" for c in D.all_classes()]
     for chunk in pool_map(_all_classes_chunk, [paths[i::32] for i in range(32)]):
         for p, fails in chunk:
-            rep.evaluations += 2
+            rep.evaluations += 3
             for sig, msg in fails:
                 rep.add_failure(Failure(sig, msg, {"class": p, "tree": None, "zero": True}, len(msg)))
     rep.labels["all_classes_zero_instance"] = len(paths)
